@@ -80,9 +80,14 @@ DRIVER = r'''
 #include <stdlib.h>
 #include <string.h>
 #include <stdint.h>
+#include <setjmp.h>
 int vk_fail_count = 0;
+static jmp_buf vk_jb; static unsigned long vk_skipped = 0;
+void vk_skip(const char* why) { (void)why; vk_skipped++; longjmp(vk_jb, 1); }
 typedef uint64_t (*fn_t)(uint8_t*, uint64_t, uint8_t*, uint64_t, uint64_t, uint64_t);
-struct ent { const char* name; fn_t gen; fn_t real; uint64_t min_n, max_n; int np0; uint64_t p0[40]; int np1; uint64_t p1[16]; int upto_n; int cap_is_n; };
+struct ent { const char* name; fn_t gen; fn_t real; uint64_t min_n, max_n; int np0; uint64_t p0[40]; int np1; uint64_t p1[16]; int upto_n; int cap_is_n; int state; };
+extern uint64_t STATEFN(uint8_t*, uint64_t, uint8_t*, uint64_t, uint64_t, uint64_t);
+static const char* VALUES[] = {"", "a", "b c", "?x", "#y", "1", "80", "443", "65536", "8a", "/", "//", "/.", "..", "%%", "http", "ws", "file", "x:", "a@", ":", "\t?", "[::1]", "1.2", "é", "\\", "A", 0};
 %(decls)s
 static struct ent ents[] = { %(ents)s };
 int main(int argc, char** argv) {
@@ -96,6 +101,27 @@ int main(int argc, char** argv) {
     if (n && fread(buf, 1, n, f) != n) return 2;
     for (unsigned e = 0; e < sizeof(ents)/sizeof(ents[0]); e++) {
       struct ent* E = &ents[e];
+      if (E->state) {
+        /* the corpus string is a URL: the REAL parser turns it into a state; each value of VALUES is then applied */
+        static uint8_t st[600];
+        uint64_t pr = STATEFN(buf, n, st, 36 + STATE_MAX, 0, 0);
+        if ((pr & 0xff) != 1) continue;
+        uint64_t L = pr >> 16;
+        for (int vi = 0; VALUES[vi]; vi++) {
+          uint64_t vl = strlen(VALUES[vi]);
+          uint64_t tot = 36 + L + vl;
+          uint8_t* ia = malloc(tot); uint8_t* ib = malloc(tot);
+          memcpy(ia, st, 36 + L); memcpy(ia + 36 + L, VALUES[vi], vl); memcpy(ib, ia, tot);
+          memset(oa, 0xAA, sizeof oa); memset(ob, 0xAA, sizeof ob);
+          if (setjmp(vk_jb)) continue;
+          uint64_t ra = E->gen(ia, tot, oa, 36 + 64, 7, 0);
+          uint64_t rb = E->real(ib, tot, ob, 36 + 64, 7, 0);
+          inputs++;
+          if (ra != rb || memcmp(oa, ob, sizeof oa) != 0) { mism++; if (mism < 6) { printf("MISMATCH %%s url=%%.*s value=%%s gen=%%llx real=%%llx\n", E->name, (int)n, buf, VALUES[vi], (unsigned long long)ra, (unsigned long long)rb); } }
+          free(ia); free(ib);
+        }
+        continue;
+      }
       if (n < E->min_n || n > E->max_n) continue;
       int np0 = E->upto_n ? (int)n + 1 : E->np0;
       for (int i = 0; i < np0; i++) for (int j = 0; j < E->np1; j++) {
@@ -103,6 +129,7 @@ int main(int argc, char** argv) {
         uint8_t* ia = malloc(n ? n : 1); uint8_t* ib = malloc(n ? n : 1); memcpy(ia, buf, n); memcpy(ib, buf, n);
         memset(oa, 0xAA, sizeof oa); memset(ob, 0xAA, sizeof ob);
         uint64_t cap = E->cap_is_n ? n : 256;
+        if (setjmp(vk_jb)) continue;
         uint64_t ra = E->gen(ia, n, oa, cap, p0, p1);
         uint64_t rb = E->real(ib, n, ob, cap, p0, p1);
         inputs++;
@@ -114,7 +141,7 @@ int main(int argc, char** argv) {
       }
     }
   }
-  printf("TV inputs=%%lu mismatches=%%lu asserts=%%d\n", inputs, mism, vk_fail_count);
+  printf("TV inputs=%%lu mismatches=%%lu asserts=%%d skipped=%%lu\n", inputs, mism, vk_fail_count, vk_skipped);
   return mism || vk_fail_count ? 1 : 0;
 }
 '''
@@ -168,7 +195,8 @@ def run(eng, obls):
 
 
 def tv_unit(eng, u, cpath):
-    if u.stubs:
+    from engine import STR_STUBS
+    if u.stubs and sorted(u.stubs) != sorted(STR_STUBS):
         return {"skipped": True}
     roots = [r for r in u.roots if SPEC.get(r, {}).get("max_n", 48) != 0 and not SPEC.get(r, {}).get("skip")]
     if not roots:
@@ -184,12 +212,16 @@ def tv_unit(eng, u, cpath):
             p0 = [0]
         p1 = sp.get("p1", [0])
         decls.append(f"extern uint64_t {u.prefix}{r}(uint8_t*, uint64_t, uint8_t*, uint64_t, uint64_t, uint64_t);")
-        ents.append('{"%s", %sF_%s, %s%s, %d, %d, %d, {%s}, %d, {%s}, %d, %d}' % (
+        ents.append('{"%s", %sF_%s, %s%s, %d, %d, %d, {%s}, %d, {%s}, %d, %d, %d}' % (
             r, u.prefix, r, u.prefix, r, sp.get("min_n", 0), sp.get("max_n", 48), len(p0), ",".join(str(x) + "ULL" for x in p0),
-            len(p1), ",".join(str(x) + "ULL" for x in p1), upto, 1 if sp.get("cap_is_n") else 0))
+            len(p1), ",".join(str(x) + "ULL" for x in p1), upto, 1 if sp.get("cap_is_n") else 0, 1 if r.startswith("vk_st_") else 0))
     src = os.path.join(eng.work, "tv_" + u.key() + ".c")
     with open(src, "w") as f:
         f.write(f'#include "{VERIF}/ll2c/ll2c_rt.h"\n#include "{c}"\n#include "{VERIF}/models/models.c"\n')
+        if u.stubs:
+            f.write(f'#define VK_STR_MAX 16\n#define VK_NO_HEAP 1\n#include "{VERIF}/models/string_model.c"\n')
+        smax = 14 if u.stubs else 40
+        f.write(f"#define STATEFN {u.prefix}vk_parse_state\n#define STATE_MAX {smax}\n")
         f.write(DRIVER % {"decls": "\n".join(decls), "ents": ",\n".join(ents), "inits": f"{u.prefix}ll2c_init_globals();"})
     o = src[:-2] + ".o"
     exe = src[:-2] + ".exe"
